@@ -352,6 +352,43 @@ fn judge_fanout(
     None
 }
 
+/// Reveal deliveries on the twin node (fixed packets, nothing is judged here).
+fn twin_reveal(t: &mut Node, own: u16) -> (BTreeSet<u32>, BTreeSet<u32>) {
+    let p_own = Packet {
+        is_error: false,
+        device_address: own,
+        data: vec![0x7e, 0x01],
+    };
+    let foreign = if own == 0x0202 { 0x0303 } else { 0x0202 };
+    let p_for = Packet {
+        is_error: false,
+        device_address: foreign,
+        data: vec![0x7e, 0x02],
+    };
+    let mut o = BTreeSet::new();
+    let mut f = BTreeSet::new();
+    t.link.borrow_mut().rx.push_front(RxItem::Pkt(p_own.clone()));
+    let _ = sut(|| t.proto.tick());
+    t.link.borrow_mut().next_send_err = Some(None);
+    let _ = sut(|| t.proto.send_packet(&p_own));
+    t.link.borrow_mut().next_send_err = None;
+    for (tok, p, _) in take_logs(t).fired {
+        if packet_eq(&p, &p_own) {
+            o.insert(tok);
+        }
+    }
+    t.link.borrow_mut().rx.clear();
+    t.link.borrow_mut().rx.push_front(RxItem::Pkt(p_for.clone()));
+    let _ = sut(|| t.proto.tick());
+    for (tok, p, _) in take_logs(t).fired {
+        if packet_eq(&p, &p_for) {
+            f.insert(tok);
+        }
+    }
+    t.link.borrow_mut().rx.clear();
+    (o, f)
+}
+
 fn expected_tokens(model: &Model, owned: bool) -> BTreeSet<u32> {
     model.live.values().filter(|h| owned || h.capture_all).map(|h| h.token).collect()
 }
@@ -401,6 +438,15 @@ fn multiset_included(a: &[Packet], b: &[Packet]) -> bool {
 }
 
 fn gen_app_packet(sim: &Sim, addr: u16, tag: u32) -> Packet {
+    if sim.chance(25) {
+        // a real event encoding: routing must not depend on what a packet contains
+        let ev = gen_event(sim, sim.draw(N_KINDS), addr, SizeCfg { large_pct: 0, huge_pct: 0 });
+        if let Ok(mut p) = ev.to_packet((tag & 0xff) as u8) {
+            p.device_address = addr;
+            sanitize(&mut p);
+            return p;
+        }
+    }
     let len = sim.pick(&[4usize, 0, 2, 9, 14, 30]);
     let mut data = fill_pattern(sim.pick(&[6u32, 3, 1]), tag, len);
     if len >= 2 {
@@ -458,10 +504,57 @@ pub fn run(sim: &Sim, prop: &str, tier: Tier) -> Outcome {
     // op mix: registry-heavy histories for C17, delivery-heavy for the others
     let reg_weight = if prop == "C17" { sim.pick(&[60u32, 80, 40]) } else { sim.pick(&[30u32, 15, 50]) };
     let mut ops_log: Vec<String> = Vec::new();
+    // C17 only: a twin node receives the same registry operations, each followed at once by
+    // reveal deliveries. A handler that is live on the twin but silent here was lost to the
+    // *history* of registry operations (not to a static dispatch defect, which would
+    // silence it on the twin too).
+    let mut twin: Option<Node> = if prop == "C17" { Some(new_node(sim, "t", own)) } else { None };
+    let mut twin_own: BTreeSet<u32> = BTreeSet::new();
+    let mut twin_foreign: BTreeSet<u32> = BTreeSet::new();
+    // swarm: how often a registry operation is followed by a reveal step
+    let reveal_pct = sim.pick(&[100u32, 100, 60, 25]);
+    // swarm: a large handler table built up front ("any number of handlers")
+    let bulk = if sim.chance(4) { sim.pick(&[17u32, 33, 40, 70]) } else { 0 };
     let mut pending_reveal = false;
     let mut id_reused = false;
     let mut seen_own: BTreeSet<u32> = BTreeSet::new();
     let mut seen_foreign: BTreeSet<u32> = BTreeSet::new();
+
+    for _ in 0..bulk {
+        let capture_all = sim.chance(40);
+        let token = model.next_token;
+        model.next_token += 1;
+        let h = MHandler { token, capture_all, beh: Beh::Plain };
+        let boxed = make_handler(sim, "n", &h, &node.hlog);
+        if let Some(t) = twin.as_mut() {
+            let b2 = make_handler(sim, "t", &h, &t.hlog);
+            let _ = sut(|| t.proto.add_packet_handler(b2, capture_all));
+        }
+        match sut(|| node.proto.add_packet_handler(boxed, capture_all)) {
+            Ok(Ok(id)) => {
+                if model.live.contains_key(&id) {
+                    return fail(
+                        prop,
+                        "C17.unique",
+                        format!("add_packet_handler returned id {} which is the id of a live handler (table of {})", id, model.live.len()),
+                        "duplicate-id".to_string(),
+                    );
+                }
+                model.live.insert(id, h);
+            }
+            other => return fail(prop, "C17.unique", format!("add_packet_handler failed: {:?}", other), "add-failed".to_string()),
+        }
+    }
+    if bulk > 0 {
+        if let Some(t) = twin.as_mut() {
+            let (o, f) = twin_reveal(t, own);
+            twin_own = o;
+            twin_foreign = f;
+        }
+        ops_log.push(format!("add x{}", bulk));
+        sim.probe("large_handler_table");
+        pending_reveal = true;
+    }
 
     let mut i = 0;
     while i < n_ops {
@@ -496,6 +589,13 @@ pub fn run(sim: &Sim, prop: &str, tier: Tier) -> Outcome {
                 };
                 let h = MHandler { token, capture_all, beh };
                 let boxed = make_handler(sim, "n", &h, &node.hlog);
+                if let Some(t) = twin.as_mut() {
+                    let b2 = make_handler(sim, "t", &h, &t.hlog);
+                    let _ = sut(|| t.proto.add_packet_handler(b2, capture_all));
+                    let (o, f) = twin_reveal(t, own);
+                    twin_own = o;
+                    twin_foreign = f;
+                }
                 let r = sut(|| node.proto.add_packet_handler(boxed, capture_all));
                 sim.event(EV_OP, 1, token as u64, || {
                     format!("add_packet_handler(#{} capture_all={} {:?}) -> {:?}", token, capture_all, h.beh, r)
@@ -531,7 +631,7 @@ pub fn run(sim: &Sim, prop: &str, tier: Tier) -> Outcome {
                         )
                     }
                 }
-                pending_reveal = true;
+                pending_reveal = sim.chance(reveal_pct);
             }
             // --------------------------------------------------- remove
             1 => {
@@ -542,9 +642,28 @@ pub fn run(sim: &Sim, prop: &str, tier: Tier) -> Outcome {
                 } else if choice < 8 && !model.removed_ids.is_empty() {
                     model.removed_ids[sim.draw(model.removed_ids.len() as u32) as usize]
                 } else {
-                    sim.pick(&[model.live.len() as u32, 1000, u32::MAX, model.live.len() as u32 + 1])
+                    // never-issued ids, including ones that alias a live id if an id is
+                    // truncated, masked or taken modulo something on the way
+                    let some_live = model.live.keys().next_back().copied().unwrap_or(0);
+                    sim.pick(&[
+                        model.live.len() as u32,
+                        1000,
+                        u32::MAX,
+                        model.live.len() as u32 + 1,
+                        some_live.wrapping_add(0x1_0000),
+                        some_live.wrapping_add(0x100),
+                        some_live | 0x8000_0000,
+                        some_live.wrapping_add(32),
+                        some_live.wrapping_add(64),
+                    ])
                 };
                 let was_live = model.live.contains_key(&id);
+                if let Some(t) = twin.as_mut() {
+                    let _ = sut(|| t.proto.remove_packet_handler(id));
+                    let (o, f) = twin_reveal(t, own);
+                    twin_own = o;
+                    twin_foreign = f;
+                }
                 let r = sut(|| node.proto.remove_packet_handler(id));
                 sim.event(EV_OP, 2, id as u64, || format!("remove_packet_handler({}) -> {:?}   (model: {})", id, r, if was_live { "registered" } else { "not registered" }));
                 ops_log.push(format!("rm{}", id));
@@ -583,7 +702,7 @@ pub fn run(sim: &Sim, prop: &str, tier: Tier) -> Outcome {
                         )
                     }
                 }
-                pending_reveal = true;
+                pending_reveal = sim.chance(reveal_pct);
             }
             // ----------------------------------------------------- tick
             2 => {
@@ -609,22 +728,47 @@ pub fn run(sim: &Sim, prop: &str, tier: Tier) -> Outcome {
                 let mut fired_own: BTreeSet<u32> = BTreeSet::new();
                 let mut fired_foreign: BTreeSet<u32> = BTreeSet::new();
                 let mut dead_fired: Option<(u32, &'static str)> = None;
-                // tick path
-                node.link.borrow_mut().rx.push_front(RxItem::Pkt(p1.clone()));
-                let r1 = sut(|| node.proto.tick());
-                let d1 = take_logs(&node);
-                sim.event(EV_OP, 5, d1.fired.len() as u64, || format!("reveal via tick({}) -> {}", show_packet(&p1), show_perr(&r1)));
-                // loop-back path
-                node.link.borrow_mut().next_send_err = Some(None);
-                let r2 = sut(|| node.proto.send_packet(&p2));
-                node.link.borrow_mut().next_send_err = None;
-                let d2 = take_logs(&node);
-                sim.event(EV_OP, 6, d2.fired.len() as u64, || format!("reveal via send_packet({}) -> {}", show_packet(&p2), show_perr(&r2)));
-                // foreign-address packet through tick
-                node.link.borrow_mut().rx.push_front(RxItem::Pkt(p3.clone()));
-                let r3 = sut(|| node.proto.tick());
-                let d3 = take_logs(&node);
-                sim.event(EV_OP, 10, d3.fired.len() as u64, || format!("reveal via tick({}) [foreign address] -> {}", show_packet(&p3), show_perr(&r3)));
+                // the order of the three deliveries varies from reveal to reveal
+                let order: [u8; 3] = match sim.draw(3) {
+                    0 => [0, 1, 2],
+                    1 => [1, 0, 2],
+                    _ => [2, 1, 0],
+                };
+                let mut d1o = None;
+                let mut d2o = None;
+                let mut d3o = None;
+                for step in order {
+                    match step {
+                        0 => {
+                            // tick path
+                            node.link.borrow_mut().rx.push_front(RxItem::Pkt(p1.clone()));
+                            let r1 = sut(|| node.proto.tick());
+                            let d = take_logs(&node);
+                            sim.event(EV_OP, 5, d.fired.len() as u64, || format!("reveal via tick({}) -> {}", show_packet(&p1), show_perr(&r1)));
+                            d1o = Some(d);
+                        }
+                        1 => {
+                            // loop-back path
+                            node.link.borrow_mut().next_send_err = Some(None);
+                            let r2 = sut(|| node.proto.send_packet(&p2));
+                            node.link.borrow_mut().next_send_err = None;
+                            let d = take_logs(&node);
+                            sim.event(EV_OP, 6, d.fired.len() as u64, || format!("reveal via send_packet({}) -> {}", show_packet(&p2), show_perr(&r2)));
+                            d2o = Some(d);
+                        }
+                        _ => {
+                            // foreign-address packet through tick
+                            node.link.borrow_mut().rx.push_front(RxItem::Pkt(p3.clone()));
+                            let r3 = sut(|| node.proto.tick());
+                            let d = take_logs(&node);
+                            sim.event(EV_OP, 10, d.fired.len() as u64, || format!("reveal via tick({}) [foreign address] -> {}", show_packet(&p3), show_perr(&r3)));
+                            d3o = Some(d);
+                        }
+                    }
+                    // nothing of a reveal delivery may stay queued
+                    node.link.borrow_mut().rx.clear();
+                }
+                let (d1, d2, d3) = (d1o.unwrap(), d2o.unwrap(), d3o.unwrap());
                 for (d, via, own_path) in [(&d1, "tick", true), (&d2, "loop-back send", true), (&d3, "tick (foreign address)", false)] {
                     for (t, p, _) in d.fired.iter() {
                         // (handlers that transmit may be re-entered by a defect: only direct deliveries count)
@@ -667,6 +811,19 @@ pub fn run(sim: &Sim, prop: &str, tier: Tier) -> Outcome {
                                 "live-handler-stopped-firing".to_string(),
                             );
                         }
+                        if prop == "C17" && twin_own.contains(&h.token) {
+                            return fail(
+                                prop,
+                                "C17.keep",
+                                format!(
+                                    "handler #{} (id {}) was registered and never removed but is not invoked; on a twin node that received the same registry operations, each followed at once by a delivery, it is invoked: it was lost to the sequence of registry operations; history: {}",
+                                    h.token,
+                                    id,
+                                    ops_log.join(" ")
+                                ),
+                                "live-handler-depends-on-history".to_string(),
+                            );
+                        }
                         let r = sut(|| node.proto.remove_packet_handler(id));
                         return match r {
                             Ok(Ok(())) => fail(
@@ -689,12 +846,16 @@ pub fn run(sim: &Sim, prop: &str, tier: Tier) -> Outcome {
                             ),
                         };
                     }
-                    if prop == "C17" && h.capture_all && !fired_foreign.contains(&h.token) && seen_foreign.contains(&h.token) {
+                    if prop == "C17"
+                        && h.capture_all
+                        && !fired_foreign.contains(&h.token)
+                        && (seen_foreign.contains(&h.token) || twin_foreign.contains(&h.token))
+                    {
                         return fail(
                             prop,
                             "C17.keep",
                             format!(
-                                "capture-all handler #{} (id {}) was invoked for foreign-address packets earlier, was never removed, and is no longer invoked for them after operations on other handlers; history: {}",
+                                "capture-all handler #{} (id {}) was invoked for foreign-address packets earlier (here or on the twin node that gets a delivery after every registry operation), was never removed, and is not invoked for them after operations on other handlers; history: {}",
                                 h.token,
                                 id,
                                 ops_log.join(" ")
@@ -939,9 +1100,19 @@ fn op_send(sim: &Sim, prop: &str, node: &mut Node, model: &Model, forced: Option
         node.link.borrow_mut().next_send_err = Some(outcome);
     }
     let outcome = if loops && has_senders { None } else { outcome };
+    // sometimes received traffic is pending on the link at the moment of the send: sending
+    // must neither consume it nor hand it to the handlers
+    let pending_rx = if sim.chance(30) {
+        let q = gen_app_packet(sim, own, 0x700 + sim.draw(64));
+        node.link.borrow_mut().rx.push_back(RxItem::Pkt(q.clone()));
+        Some(q)
+    } else {
+        None
+    };
     let r = sut(|| node.proto.send_packet(&p));
     node.link.borrow_mut().next_send_err = None;
     let d = take_logs(node);
+    let rx_left: Vec<RxItem> = node.link.borrow_mut().rx.drain(..).collect();
     sim.event(EV_OP, 4, d.fired.len() as u64, || format!("send_packet({}) [link outcome {:?}] -> {}", show_packet(&p), outcome.map(make_iface_err), show_perr(&r)));
     if prop != "C16" {
         for (t, _, _) in &d.fired {
@@ -953,6 +1124,22 @@ fn op_send(sim: &Sim, prop: &str, node: &mut Node, model: &Model, forced: Option
     }
     if let Err(c) = &r {
         return Some(fail(prop, "C16.tx", format!("send_packet crashed: {:?}", c), crash_sig("send", c)));
+    }
+    if let Some(q) = &pending_rx {
+        let untouched = rx_left.len() == 1 && matches!(&rx_left[0], RxItem::Pkt(x) if packet_eq(x, q));
+        if !untouched || d.fired.iter().any(|(_, x, _)| packet_eq(x, q) && !packet_eq(x, &p)) {
+            return Some(fail(
+                prop,
+                "C16.tx",
+                format!(
+                    "send_packet({}) took received traffic off the link ({} of 1 pending packet left) or handed it to local handlers: sending routes the packet being sent and nothing else",
+                    show_packet(&p),
+                    rx_left.len()
+                ),
+                "send-consumed-received-traffic".to_string(),
+            ));
+        }
+        sim.probe("send_with_received_traffic_pending");
     }
     let exp = if loops { expected_tokens(model, true) } else { BTreeSet::new() };
     if let Some((c, m, s)) = judge_fanout(node, model, Path::Loop, &p, &exp, &d) {
@@ -1081,10 +1268,16 @@ fn run_exchange(sim: &Sim, prop: &str, tier: Tier) -> Outcome {
             None
         };
         // ---- the incoming queue
-        let n_in = sim.draw(match tier {
-            Tier::Quick => 9,
-            Tier::Thorough => 13,
-        });
+        let n_in = if sim.chance(3) {
+            // a long backlog ("all finite queues")
+            sim.probe("exchange_long_queue");
+            sim.pick(&[65u32, 70, 130, 300])
+        } else {
+            sim.draw(match tier {
+                Tier::Quick => 9,
+                Tier::Thorough => 13,
+            })
+        };
         let mut queue: Vec<RxItem> = Vec::new();
         for _ in 0..n_in {
             let c = sim.draw(20);
